@@ -551,162 +551,214 @@ func TestC15(t *testing.T) {
 		}
 		prog := genC15(rt)
 		caseNo++
-		root := filepath.Join(work, fmt.Sprintf("case%d", caseNo))
-		_ = os.MkdirAll(root, 0o755)
-		defer os.RemoveAll(root)
-		pf := filepath.Join(work, "prog.json")
-		b, _ := json.Marshal(prog)
-		_ = os.WriteFile(pf, b, 0o644)
-		trace := filepath.Join(work, "trace.txt")
-		cmd := exec.Command("strace", "-f", "-y", "-xx", "-s", "200000", "-o", trace,
-			"-e", "trace=openat,write,fsync,fdatasync,rename,renameat,renameat2,unlink,unlinkat,mkdir,mkdirat,rmdir",
-			self, "-test.run", "^TestC15Child$", "-test.count=1")
-		cmd.Env = append(os.Environ(), "C15_DIR="+root, "C15_PROG="+pf, "VERIF_OUT="+work)
-		if out, err := cmd.CombinedOutput(); err != nil {
-			r.Class("child-failed", 1)
-			rt.Skipf("child failed: %v %s", err, out[:min(len(out), 300)])
+		c15Case(rt, r, work, self, prog, caseNo, &images)
+	})
+	r.Extra("images_checked", images)
+}
+
+// c15TB is what the case body needs from rapid.T / testing.T.
+type c15TB interface {
+	Fatalf(format string, args ...any)
+	Skipf(format string, args ...any)
+	Skip(args ...any)
+}
+
+// c15Case runs one generated history under strace and checks every crash
+// point x image of it.
+func c15Case(rt c15TB, r *rep.Report, work, self string, prog c15Prog, caseNo int, imagesOut *int) {
+	images := 0
+	defer func() { *imagesOut += images }()
+	root := filepath.Join(work, fmt.Sprintf("case%d", caseNo))
+	_ = os.MkdirAll(root, 0o755)
+	defer os.RemoveAll(root)
+	pf := filepath.Join(work, "prog.json")
+	b, _ := json.Marshal(prog)
+	_ = os.WriteFile(pf, b, 0o644)
+	trace := filepath.Join(work, "trace.txt")
+	cmd := exec.Command("strace", "-f", "-y", "-xx", "-s", "200000", "-o", trace,
+		"-e", "trace=openat,write,fsync,fdatasync,rename,renameat,renameat2,unlink,unlinkat,mkdir,mkdirat,rmdir",
+		self, "-test.run", "^TestC15Child$", "-test.count=1")
+	cmd.Env = append(os.Environ(), "C15_DIR="+root, "C15_PROG="+pf, "VERIF_OUT="+work)
+	if out, err := cmd.CombinedOutput(); err != nil {
+		r.Class("child-failed", 1)
+		rt.Skipf("child failed: %v %s", err, out[:min(len(out), 300)])
+	}
+	ops, err := parseStrace(trace, root)
+	if err != nil || len(ops) == 0 {
+		r.Class("trace-unreadable", 1)
+		rt.Skip("no trace")
+	}
+	// snapshots from the markers
+	snaps := map[string]*c15Snap{}
+	bySeq := map[int]*c15Snap{}
+	retainAt := make([]int, len(ops)+1)
+	cur := prog.Retain
+	for i, o := range ops {
+		if o.Kind == "mark" {
+			f := strings.Fields(o.Path)
+			kv := map[string]string{}
+			for _, x := range f[1:] {
+				if p := strings.SplitN(x, "=", 2); len(p) == 2 {
+					kv[p[0]] = p[1]
+				}
+			}
+			seq, _ := strconv.Atoi(kv["seq"])
+			switch f[0] {
+			case "created":
+				tm, _ := strconv.ParseUint(kv["term"], 10, 64)
+				ix, _ := strconv.ParseUint(kv["index"], 10, 64)
+				sz, _ := strconv.Atoi(kv["size"])
+				sn := &c15Snap{seq: seq, id: kv["id"], term: tm, index: ix, size: sz, closedAt: -1}
+				snaps[sn.id], bySeq[seq] = sn, sn
+			case "close-ok":
+				bySeq[seq].closedAt = i
+			case "cancelled", "abandoned", "close-failed":
+				bySeq[seq].doomed = true
+			case "reopen":
+				cur, _ = strconv.Atoi(kv["retain"])
+			}
 		}
-		ops, err := parseStrace(trace, root)
-		if err != nil || len(ops) == 0 {
-			r.Class("trace-unreadable", 1)
-			rt.Skip("no trace")
+		retainAt[i+1] = cur
+	}
+	retainAt[0] = prog.Retain
+	// doomed-ness is known from the program, not from when the marker appears
+	seq := 0
+	for _, o := range prog.Ops {
+		if o.Op == "create" {
+			seq++
+			if sn := bySeq[seq]; sn != nil && o.End != "close" {
+				sn.doomed = true
+			}
 		}
-		// snapshots from the markers
-		snaps := map[string]*c15Snap{}
-		bySeq := map[int]*c15Snap{}
-		retainAt := make([]int, len(ops)+1)
-		cur := prog.Retain
-		for i, o := range ops {
+	}
+	// model of retention: the snapshots the store keeps after each completed Close
+	aliveAt := func(k int) []*c15Snap {
+		var alive []*c15Snap
+		for i := 0; i < k && i < len(ops); i++ {
+			o := ops[i]
+			if o.Kind != "mark" || !strings.HasPrefix(o.Path, "close-ok") {
+				continue
+			}
+			var sq int
+			fmt.Sscanf(o.Path, "close-ok seq=%d", &sq)
+			alive = append(alive, bySeq[sq])
+			sort.Slice(alive, func(a, b int) bool { return c15Less(alive[b], alive[a]) })
+			if r := retainAt[i]; len(alive) > r {
+				alive = alive[:r]
+			}
+		}
+		return alive
+	}
+	// enumerate crash points
+	fs := newMFS(root)
+	rootSnap := filepath.Join(root, "snapshots")
+	var lastRootSync *mfs // namespace as of the last fsync of the snapshot root
+	kinds := map[string]bool{}
+	nontrivial := false
+	for k := 0; k <= len(ops); k++ {
+		if k > 0 {
+			o := ops[k-1]
+			if o.Kind == "fsync" && o.Path == rootSnap {
+				fs.apply(o)
+				lastRootSync = fs.clone()
+			} else {
+				fs.apply(o)
+			}
 			if o.Kind == "mark" {
-				f := strings.Fields(o.Path)
-				kv := map[string]string{}
-				for _, x := range f[1:] {
-					if p := strings.SplitN(x, "=", 2); len(p) == 2 {
-						kv[p[0]] = p[1]
-					}
-				}
-				seq, _ := strconv.Atoi(kv["seq"])
-				switch f[0] {
-				case "created":
-					tm, _ := strconv.ParseUint(kv["term"], 10, 64)
-					ix, _ := strconv.ParseUint(kv["index"], 10, 64)
-					sz, _ := strconv.Atoi(kv["size"])
-					sn := &c15Snap{seq: seq, id: kv["id"], term: tm, index: ix, size: sz, closedAt: -1}
-					snaps[sn.id], bySeq[seq] = sn, sn
-				case "close-ok":
-					bySeq[seq].closedAt = i
-				case "cancelled", "abandoned", "close-failed":
-					bySeq[seq].doomed = true
-				case "reopen":
-					cur, _ = strconv.Atoi(kv["retain"])
-				}
+				continue
 			}
-			retainAt[i+1] = cur
+			kinds[o.Kind] = true
 		}
-		retainAt[0] = prog.Retain
-		// doomed-ness is known from the program, not from when the marker appears
-		seq := 0
-		for _, o := range prog.Ops {
-			if o.Op == "create" {
-				seq++
-				if sn := bySeq[seq]; sn != nil && o.End != "close" {
-					sn.doomed = true
-				}
-			}
-		}
-		// model of retention: the snapshots the store keeps after each completed Close
-		aliveAt := func(k int) []*c15Snap {
-			var alive []*c15Snap
-			for i := 0; i < k && i < len(ops); i++ {
-				o := ops[i]
-				if o.Kind != "mark" || !strings.HasPrefix(o.Path, "close-ok") {
-					continue
-				}
-				var sq int
-				fmt.Sscanf(o.Path, "close-ok seq=%d", &sq)
-				alive = append(alive, bySeq[sq])
-				sort.Slice(alive, func(a, b int) bool { return c15Less(alive[b], alive[a]) })
-				if r := retainAt[i]; len(alive) > r {
-					alive = alive[:r]
-				}
-			}
-			return alive
-		}
-		// enumerate crash points
-		fs := newMFS(root)
-		rootSnap := filepath.Join(root, "snapshots")
-		var lastRootSync *mfs // namespace as of the last fsync of the snapshot root
-		kinds := map[string]bool{}
-		nontrivial := false
-		for k := 0; k <= len(ops); k++ {
-			if k > 0 {
-				o := ops[k-1]
-				if o.Kind == "fsync" && o.Path == rootSnap {
-					fs.apply(o)
-					lastRootSync = fs.clone()
-				} else {
-					fs.apply(o)
-				}
-				if o.Kind == "mark" {
-					continue
-				}
-				kinds[o.Kind] = true
-			}
-			for _, image := range []string{"I1-all-kept", "I2-unsynced-data-lost", "I3-root-dir-ops-undone"} {
-				img := filepath.Join(work, "img")
-				_ = os.RemoveAll(img)
-				src := fs
-				if image == "I3-root-dir-ops-undone" {
-					// root namespace as of its last fsync; contents of surviving directories as of now
-					base := newMFS(root)
-					base.dirs[rootSnap] = true
-					if lastRootSync != nil {
-						for d := range lastRootSync.dirs {
-							if filepath.Dir(d) == rootSnap || d == rootSnap || d == root {
-								base.dirs[d] = true
-							}
-						}
-					}
-					for d := range fs.dirs {
-						if p := filepath.Dir(d); p != rootSnap && p != root && d != root && d != rootSnap && base.dirs[topUnder(d, rootSnap)] {
+		for _, image := range []string{"I1-all-kept", "I2-unsynced-data-lost", "I3-root-dir-ops-undone"} {
+			img := filepath.Join(work, "img")
+			_ = os.RemoveAll(img)
+			src := fs
+			if image == "I3-root-dir-ops-undone" {
+				// root namespace as of its last fsync; contents of surviving directories as of now
+				base := newMFS(root)
+				base.dirs[rootSnap] = true
+				if lastRootSync != nil {
+					for d := range lastRootSync.dirs {
+						if filepath.Dir(d) == rootSnap || d == rootSnap || d == root {
 							base.dirs[d] = true
 						}
 					}
-					for p, f := range fs.files {
-						if top := topUnder(p, rootSnap); top != "" && base.dirs[top] && fs.dirs[top] {
-							base.files[p] = f
-						}
+				}
+				for d := range fs.dirs {
+					if p := filepath.Dir(d); p != rootSnap && p != root && d != root && d != rootSnap && base.dirs[topUnder(d, rootSnap)] {
+						base.dirs[d] = true
 					}
-					src = base
 				}
-				if err := src.materialise(root, img, image == "I2-unsynced-data-lost"); err != nil {
-					rt.Skipf("materialise: %v", err)
+				for p, f := range fs.files {
+					if top := topUnder(p, rootSnap); top != "" && base.dirs[top] && fs.dirs[top] {
+						base.files[p] = f
+					}
 				}
-				images++
-				if d := c15Check(img, retainAt[k], snaps, aliveAt(k), image); d != "" {
-					detail := fmt.Sprintf("history %s; crash after syscall %d of %d (%s), image %s: %s", b, k, len(ops), opDesc(ops, k), image, d)
-					path := fmt.Sprintf("%s/C15-%d.json", rep.ReplayDir(), os.Getpid())
-					writeJSON(path, map[string]any{"property": "C15", "engine": "unit", "test": "TestC15Replay", "program": prog, "cut": k, "image": image, "detail": detail})
-					r.Violate("C15", "R", "C15/"+c15Sig(d), detail, path)
-					r.Freeze()
-					rt.Fatalf("%s", detail)
-				}
+				src = base
 			}
-			if k > 0 && ops[k-1].Kind != "mark" {
-				nontrivial = true
+			if err := src.materialise(root, img, image == "I2-unsynced-data-lost"); err != nil {
+				rt.Skipf("materialise: %v", err)
+			}
+			images++
+			if d := c15Check(img, retainAt[k], snaps, aliveAt(k), image); d != "" {
+				detail := fmt.Sprintf("history %s; crash after syscall %d of %d (%s), image %s: %s", b, k, len(ops), opDesc(ops, k), image, d)
+				path := fmt.Sprintf("%s/C15-%d.json", rep.ReplayDir(), os.Getpid())
+				writeJSON(path, map[string]any{"property": "C15", "engine": "unit", "test": "TestC15Replay", "program": prog, "cut": k, "image": image, "detail": detail})
+				r.Violate("C15", "R", "C15/"+c15Sig(d), detail, path)
+				r.Freeze()
+				rt.Fatalf("%s", detail)
 			}
 		}
-		var ks []string
-		for k := range kinds {
-			ks = append(ks, k)
+		if k > 0 && ops[k-1].Kind != "mark" {
+			nontrivial = true
 		}
-		sort.Strings(ks)
-		r.Case(nontrivial, rep.Hash(string(b)), ks...)
-		if r.WantSample() {
-			r.Sample(map[string]any{"history": prog, "syscalls": len(ops), "crash_points_x_images": (len(ops) + 1) * 3})
+	}
+	var ks []string
+	for k := range kinds {
+		ks = append(ks, k)
+	}
+	sort.Strings(ks)
+	r.Case(nontrivial, rep.Hash(string(b)), ks...)
+	if r.WantSample() {
+		r.Sample(map[string]any{"history": prog, "syscalls": len(ops), "crash_points_x_images": (len(ops) + 1) * 3})
+	}
+}
+
+// TestC15Replay re-checks every crash point of a saved history (crash mode) or
+// re-applies a saved metadata/state corruption (corrupt mode).
+func TestC15Replay(t *testing.T) {
+	path := os.Getenv("VERIF_REPLAY")
+	if path == "" {
+		t.Skip("VERIF_REPLAY not set")
+	}
+	var f struct {
+		Mode    string  `json:"mode"`
+		Program c15Prog `json:"program"`
+		File    string  `json:"file"`
+		Size    int     `json:"size"`
+		Bytes   []byte  `json:"corrupted_bytes"`
+	}
+	readJSON(t, path, &f)
+	r := rep.New("C15", "replay")
+	if f.Mode == "corrupt" {
+		if d := c15CorruptRun(f.Size, f.File, f.Bytes, nil); d != "" {
+			t.Fatalf("VIOLATION property=C15 replay=%s\n%s", path, d)
 		}
-	})
-	r.Extra("images_checked", images)
+		t.Log("REPLAY-OK property=C15")
+		return
+	}
+	self, _ := os.Executable()
+	work, err := os.MkdirTemp("", "c15r-")
+	if err != nil {
+		t.Fatal(err)
+	}
+	defer os.RemoveAll(work)
+	n := 0
+	c15Case(t, r, work, self, f.Program, 1, &n)
+	if r.Violations() > 0 {
+		t.Fatalf("VIOLATION property=C15 replay=%s", path)
+	}
+	t.Log("REPLAY-OK property=C15")
 }
 
 func topUnder(p, rootSnap string) string {
@@ -745,62 +797,121 @@ func c15Sig(d string) string {
 }
 
 // TestC15Corrupt: R5 — corrupted state or metadata never yields wrong bytes.
+// c15CorruptRun: one snapshot of the given size is closed, file `which` of it is
+// replaced by `corrupted` (mutate != nil: derived from the original bytes), and a
+// fresh store is then used further. Returns a description of what is wrong.
+func c15CorruptRun(size int, which string, corrupted []byte, mutate func(orig []byte) []byte) (detail string) {
+	_, tr := raft.NewInmemTransport("")
+	dir, _ := os.MkdirTemp("", "c15c-")
+	defer os.RemoveAll(dir)
+	store, err := raft.NewFileSnapshotStoreWithLogger(dir, 2, hclog.NewNullLogger())
+	if err != nil {
+		return ""
+	}
+	data := c15Content(1, size)
+	sink, err := store.Create(1, 5, 2, raft.Configuration{}, 0, tr)
+	if err != nil {
+		return ""
+	}
+	_, _ = sink.Write(data)
+	if err := sink.Close(); err != nil {
+		return ""
+	}
+	p := filepath.Join(dir, "snapshots", sink.ID(), which)
+	if mutate != nil {
+		b, _ := os.ReadFile(p)
+		corrupted = mutate(b)
+	}
+	_ = os.WriteFile(p, corrupted, 0o644)
+	c15LastCorrupted = corrupted
+	fresh, err := raft.NewFileSnapshotStoreWithLogger(dir, 2, hclog.NewNullLogger())
+	if err != nil {
+		return ""
+	}
+	list, _ := fresh.List()
+	for _, m := range list {
+		_, rc, err := fresh.Open(m.ID)
+		if err != nil {
+			continue // (checksum / metadata verified at Open: a damaged snapshot may be listed, it must not open with other bytes)
+		}
+		got, _ := io.ReadAll(rc)
+		_ = rc.Close()
+		if !bytes.Equal(got, data) {
+			return fmt.Sprintf("Open succeeds and yields %d bytes that differ from what was written", len(got))
+		}
+	}
+	// the store keeps working next to the damaged snapshot: what is closed
+	// afterwards is listed and opens, retention keeps the newest
+	for k := 0; k < 3; k++ {
+		d2 := c15Content(10+k, 20)
+		sk, err := fresh.Create(1, uint64(10+k), 3, raft.Configuration{}, 0, tr)
+		if err != nil {
+			return ""
+		}
+		_, _ = sk.Write(d2)
+		if err := sk.Close(); err != nil {
+			continue
+		}
+		again, _ := raft.NewFileSnapshotStoreWithLogger(dir, 2, hclog.NewNullLogger())
+		l2, _ := again.List()
+		found := false
+		for _, m := range l2 {
+			if m.ID == sk.ID() {
+				if _, rc, err := again.Open(m.ID); err == nil {
+					got, _ := io.ReadAll(rc)
+					_ = rc.Close()
+					found = bytes.Equal(got, d2)
+				}
+			}
+		}
+		if !found {
+			return fmt.Sprintf("snapshot %s closed afterwards (Close returned nil) is not listed with its content; listed: %d entries", sk.ID(), len(l2))
+		}
+	}
+	return ""
+}
+
+var c15LastCorrupted []byte
+
 func TestC15Corrupt(t *testing.T) {
 	r := rep.New("C15", "corrupt")
 	r.Extra("test", "TestC15Corrupt")
 	defer r.Flush()
-	_, tr := raft.NewInmemTransport("")
 	rapid.Check(t, func(rt *rapid.T) {
-		dir, _ := os.MkdirTemp("", "c15c-")
-		defer os.RemoveAll(dir)
-		store, err := raft.NewFileSnapshotStoreWithLogger(dir, 2, hclog.NewNullLogger())
-		if err != nil {
-			rt.Fatal(err)
+		if r.Frozen() {
+			return
 		}
 		size := rapid.SampledFrom([]int{1, 10, 5000}).Draw(rt, "size")
-		data := c15Content(1, size)
-		sink, err := store.Create(1, 5, 2, raft.Configuration{}, 0, tr)
-		if err != nil {
-			rt.Fatal(err)
-		}
-		_, _ = sink.Write(data)
-		if err := sink.Close(); err != nil {
-			rt.Fatal(err)
-		}
-		id := sink.ID()
 		which := rapid.SampledFrom([]string{"state.bin", "meta.json"}).Draw(rt, "file")
-		p := filepath.Join(dir, "snapshots", id, which)
-		b, _ := os.ReadFile(p)
-		mode := rapid.SampledFrom([]string{"flip", "truncate", "append"}).Draw(rt, "mode")
-		switch mode {
-		case "flip":
-			i := rapid.IntRange(0, len(b)-1).Draw(rt, "at")
-			b[i] ^= byte(rapid.IntRange(1, 255).Draw(rt, "xor"))
-		case "truncate":
-			b = b[:rapid.IntRange(0, len(b)-1).Draw(rt, "len")]
-		case "append":
-			b = append(b, byte(rapid.IntRange(0, 255).Draw(rt, "extra")))
-		}
-		_ = os.WriteFile(p, b, 0o644)
-		fresh, err := raft.NewFileSnapshotStoreWithLogger(dir, 2, hclog.NewNullLogger())
-		if err != nil {
-			rt.Fatal(err)
-		}
-		list, _ := fresh.List()
-		r.Case(true, rep.Hash(which, mode, size, len(b)), which+":"+mode)
-		for _, m := range list {
-			_, rc, err := fresh.Open(m.ID)
-			if err != nil {
-				continue
+		mode := rapid.SampledFrom([]string{"flip", "truncate", "append", "empty", "blank"}).Draw(rt, "mode")
+		a, x := rapid.IntRange(0, 1<<20).Draw(rt, "at"), rapid.IntRange(1, 255).Draw(rt, "xor")
+		detail := c15CorruptRun(size, which, nil, func(b []byte) []byte {
+			switch mode {
+			case "empty":
+				return nil
+			case "blank":
+				return []byte(" \n")
+			case "flip":
+				b[a%len(b)] ^= byte(x)
+			case "truncate":
+				b = b[:a%len(b)]
+			case "append":
+				b = append(b, byte(x))
 			}
-			got, _ := io.ReadAll(rc)
-			_ = rc.Close()
-			if !bytes.Equal(got, data) {
-				detail := fmt.Sprintf("%s %s of a %d-byte snapshot: Open succeeds and yields %d bytes that differ from what was written", mode, which, size, len(got))
-				r.Violate("C15", "R5", "C15/R5/corrupted-snapshot-opens-with-wrong-bytes", detail, "")
-				r.Freeze()
-				rt.Fatalf("%s", detail)
+			return b
+		})
+		r.Case(true, rep.Hash(which, mode, size, a, x), which+":"+mode)
+		if detail != "" {
+			detail = fmt.Sprintf("%s %s of a %d-byte snapshot: %s", mode, which, size, detail)
+			path := fmt.Sprintf("%s/C15-corrupt-%d.json", rep.ReplayDir(), os.Getpid())
+			writeJSON(path, map[string]any{"property": "C15", "engine": "unit", "test": "TestC15Replay", "mode": "corrupt", "file": which, "size": size, "corrupted_bytes": c15LastCorrupted, "detail": detail})
+			sig := "C15/R5/corrupted-snapshot-opens-with-wrong-bytes"
+			if strings.Contains(detail, "closed afterwards") {
+				sig = "C15/R5/snapshot-closed-next-to-a-damaged-one-is-lost"
 			}
+			r.Violate("C15", "R5", sig, detail, path)
+			r.Freeze()
+			rt.Fatalf("%s", detail)
 		}
 	})
 }
